@@ -87,6 +87,17 @@ func RenderConfig(h HookCfg) string {
 		if ks != nil {
 			m["onKubernetesEvent"] = ks
 		}
+		var ss []interface{}
+		for _, sc := range h.Sched {
+			ct := Crontabs[sc.Crontab]
+			if ct == "" {
+				ct = sc.Crontab
+			}
+			ss = append(ss, map[string]interface{}{"name": sc.Name, "crontab": ct, "allowFailure": sc.Af})
+		}
+		if ss != nil {
+			m["schedule"] = ss
+		}
 		out, _ := json.Marshal(m)
 		return string(out)
 	}
